@@ -42,6 +42,7 @@ func main() {
 		r.Finish()
 	}
 	r.Parallel("hist", n, func(i int) { runCase(r, i) })
+	enumRedefinitions(r)
 	pinned(r)
 	for _, f := range []string{"alter.ok", "alter.fail", "conv.ok-changed", "conv.fail", "conv.weak", "fail.duplicate-key", "index-probes", "alter.two-clause-fail"} {
 		r.Floor(r.Counter(f) > 0, "never observed: "+f)
